@@ -9,7 +9,7 @@ from vlib import oracle_hb, structs
 ID = "C15"
 RULE = ("case = designed backbone hydrogen-bond graph (helices of stride 3/4/5 with overlaps, antiparallel / parallel ladders with gaps of "
         "0-6 residues, isolated bridges, chain breaks, missing atoms) realised by synthetic coordinates, OR variant of a seed protein (bpti / 2EQQ / 1vii / lysozyme fragment of 6-60 residues): Gaussian noise 0-0.2 nm, unfolding "
-        "stretch, deleted residues (chain breaks), missing backbone atoms, split into up to 3 chains, an interleaved water residue, trailing "
+        "stretch, deleted residues (chain breaks), missing backbone atoms, split into up to 3 chains (PDB chain identifiers absent, shared, distinct or repeating), an interleaved water residue, trailing "
         "non-protein residues, 1-4 frames, optionally asked again on the same object after a backbone atom was renamed in place and again after the name was restored; oracle = DSSP-2.2 rules (n-turns, minimal helices with H > G > I priority, bridges, ladders with "
         "bulge merging, E/B, turns, bends) applied to the hydrogen-bond relation returned by md.kabsch_sander for that frame and the CA "
         "coordinates; 'NA' exactly for residues lacking N/CA/C/O; simplified = fixed 8->3 image; moving the atoms of incomplete residues "
@@ -31,10 +31,13 @@ def strategy(draw, tier="quick"):
         case = {"design": draw(structs.designed_pattern())}
         if draw(st.integers(0, 5)) == 0:
             case["rename_between"] = [draw(st.integers(0, 200)), draw(st.integers(0, 3))]
+        # PDB chain identifiers are labels, not identity: several chains may share one letter (TER inside a chain letter)
+        case["design"]["chain_labels"] = draw(st.sampled_from(structs.CHAIN_LABEL_MODES))
         return case
     case = {"p": draw(structs.variant_params(need_h=False, max_res=60 if tier == "quick" else 158))}
     if draw(st.integers(0, 3)) == 0:
         case["rename_between"] = [draw(st.integers(0, 200)), draw(st.integers(0, 3))]
+    case["p"]["chain_labels"] = draw(st.sampled_from(structs.CHAIN_LABEL_MODES))
     return case
 
 
@@ -44,6 +47,9 @@ def run_case(case):
     with warnings.catch_warnings():
         warnings.simplefilter("ignore")
         t = structs.build(case["p"]) if "p" in case else structs.build_designed(case["design"])
+        _pp = case["p"] if "p" in case else case["design"]
+        if t.topology.n_chains > 1:
+            labels.append("chain-labels:%s" % (_pp.get("chain_labels") or "none"))
         _check(t, viol, labels, state, "")
         rb = case.get("rename_between")
         if rb and not viol:
